@@ -201,22 +201,31 @@ pub fn run(a: &Args) -> i32 {
         }
         for opp_has_queen in [false, true] {
             let ctx = if vec[4] > 0 || opp_has_queen { 1 } else { 0 };
-            for strong in [Side::White, Side::Black] {
-                let mut taken = 0u64;
-                let mut ps = place(vec, strong, true, ctx, &bonus, &mut taken);
-                let weak_vec = [0, 0, 0, 0, if opp_has_queen { 1 } else { 0 }];
-                ps.extend(place(&weak_vec, strong.other(), false, ctx, &bonus, &mut taken));
-                lattice += 1;
-                evals += 1;
-                match score_of(&ps) {
-                    Ok(s) => {
-                        outcomes.insert(s as i32);
-                        max_abs = max_abs.max((s as i32).abs());
-                        if (s as i32).abs() >= smallest_mate {
-                            sink.push(v("static-score-reaches-mate-range", describe(&ps), format!("static score {} is not strictly below the smallest mate magnitude {}", s, smallest_mate), json!({"kind": "c18-pieces", "pieces": describe(&ps)})));
+            // the strong side on its best cells and on its worst cells; each board is built for White
+            // and, mirrored, for Black: the two scores must be exact negatives of each other
+            for strong_best in [true, false] {
+                let mut pair: Vec<(i16, String)> = Vec::new();
+                for strong in [Side::White, Side::Black] {
+                    let mut taken = 0u64;
+                    let mut ps = place(vec, strong, strong_best, ctx, &bonus, &mut taken);
+                    let weak_vec = [0, 0, 0, 0, if opp_has_queen { 1 } else { 0 }];
+                    ps.extend(place(&weak_vec, strong.other(), false, ctx, &bonus, &mut taken));
+                    lattice += 1;
+                    evals += 1;
+                    match score_of(&ps) {
+                        Ok(s) => {
+                            outcomes.insert(s as i32);
+                            max_abs = max_abs.max((s as i32).abs());
+                            if (s as i32).abs() >= smallest_mate {
+                                sink.push(v("static-score-reaches-mate-range", describe(&ps), format!("static score {} is not strictly below the smallest mate magnitude {}", s, smallest_mate), json!({"kind": "c18-pieces", "pieces": describe(&ps)})));
+                            }
+                            pair.push((s, describe(&ps)));
                         }
+                        Err(p) => sink.push(v("evaluation-overflows", describe(&ps), p, json!({"kind": "c18-pieces", "pieces": describe(&ps)}))),
                     }
-                    Err(p) => sink.push(v("evaluation-overflows", describe(&ps), p, json!({"kind": "c18-pieces", "pieces": describe(&ps)}))),
+                }
+                if pair.len() == 2 && pair[0].0 as i32 != -(pair[1].0 as i32) {
+                    sink.push(v("static-score-not-colour-symmetric", pair[0].1.clone(), format!("score {} for [{}], score {} for the colour-swapped rotated board [{}]", pair[0].0, pair[0].1, pair[1].0, pair[1].1), json!({"kind": "c18-pieces", "pieces": pair[0].1})));
                 }
             }
         }
